@@ -99,6 +99,10 @@ def gen_names(facts):
     for n in EXC_CLASSES:
         cls = getattr(builtins, n)
         parents.append((n, [c.__name__ for c in cls.__mro__ if c is not object]))
+    from chameleon import exc as cexc
+    for n in ['TemplateError', 'ParseError', 'CompilationError', 'TranslationError', 'LanguageError', 'ExpressionError', 'RenderError']:
+        cls = getattr(cexc, n)
+        parents.append((n, [c.__name__ for c in cls.__mro__ if c is not object]))
     pyb = sorted(n for n in builtins.__dict__ if isinstance(n, str))
     facts['tales_exceptions'] = tal_exc
     facts['exists_exceptions'] = ex_exc
